@@ -8,6 +8,7 @@ import (
 	"net/http"
 	"net/http/httptest"
 	"net/url"
+	"runtime/debug"
 	"sort"
 	"strings"
 )
@@ -227,7 +228,7 @@ func ServeRequest(h http.Handler, r *http.Request) Resp {
 	func() {
 		defer func() {
 			if p := recover(); p != nil {
-				out.Panic = fmt.Sprint(p)
+				out.Panic = fmt.Sprint(p) + " [at " + PanicOrigin() + "]"
 			}
 		}()
 		h.ServeHTTP(rec, r)
@@ -241,3 +242,28 @@ func ServeRequest(h http.Handler, r *http.Request) Resp {
 }
 
 var _ = bytes.NewReader
+
+// PanicOrigin, called from a deferred function that has just recovered a panic, names the function in which the
+// panic was raised (the first frame below the runtime's own), so that two different panics do not share a
+// signature.
+func PanicOrigin() string {
+	lines := strings.Split(string(debug.Stack()), "\n")
+	seenPanic := false
+	for _, l := range lines {
+		if strings.HasPrefix(l, "panic(") {
+			seenPanic = true
+			continue
+		}
+		if !seenPanic || strings.HasPrefix(l, "\t") || strings.HasPrefix(l, "runtime.") || strings.HasPrefix(l, "runtime/") {
+			continue
+		}
+		if i := strings.LastIndex(l, "("); i > 0 {
+			l = l[:i]
+		}
+		if j := strings.LastIndex(l, "/"); j >= 0 {
+			l = l[j+1:]
+		}
+		return l
+	}
+	return "unknown"
+}
